@@ -196,7 +196,7 @@ class Merger(object):
         for ind, array in enumerate(channel_maps_l):
             array += offset
             self.channel_offsets.append(offset)
-            offset = array.max()
+            offset = int(array.max()) + 1
             channel_probes.append(array * 0 + ind)
         channel_maps = _concat(channel_maps_l, axis=0)
         channel_probes = _concat(channel_probes, axis=0)
